@@ -104,17 +104,25 @@ Theorem prefix_ply_ascii_vertex_token : forall hdr lines m h ve bs rows rest j p
 Proof. exact ply_ascii_vertex_line_cut. Qed.
 Print Assumptions prefix_ply_ascii_vertex_token.
 
-(* cut at a token boundary inside a face line: fewer tokens than its list properties announce ([face_used]) is a
-   reported error.  PARTIAL: proved for the reader of one face line; the full statement -- read_mesh on
-   [firstn j lines ++ [firstn m (nth j lines [])]] = Err EDeclared for every j inside the face block and
-   0 < m < face_used -- additionally needs the vertex block and the preceding face lines to be replayed, which the
-   line-level theorem above provides only for complete-line cuts; that composition is checked on every run by the
-   correspondence (every token boundary of generated files), not proved. *)
-Theorem prefix_ply_ascii_face_token_partial : forall rs k ip tp toks st st' m,
-  face_ascii rs k ip tp toks st = Ok st' -> (m < face_used rs toks)%nat ->
-  face_ascii rs k ip tp (firstn m toks) st = Err EDeclared.
-Proof. exact face_ascii_partial. Qed.
-Print Assumptions prefix_ply_ascii_face_token_partial.
+(* cut at a token boundary inside line j of the face block, after 0 < m tokens, fewer than the lists of that line
+   announce ([face_used]: 1 + count tokens per list property); [rest] = the lines after the vertex block,
+   [face_lines] = how many of them the face block reads.  Reported (a short list is an error, not a panic, not a
+   stale or zero index). *)
+Theorem prefix_ply_ascii_face_token : forall hdr lines mesh h ve fe bs rows rest rs ip tp j m,
+  read_mesh {| pf_header := hdr; pf_body := BodyAscii lines |} = Ok mesh ->
+  parse_header hdr = Ok h ->
+  find_last_elem "vertex"%string (h_elems h) None = Some ve ->
+  find_last_elem "face"%string (h_elems h) None = Some fe ->
+  build_readers false default_groups true (e_props ve) = Ok bs ->
+  read_vertices_ascii bs (length (e_props ve)) lines (Z.to_nat (e_count ve)) = Ok (rows, rest) ->
+  face_setup fe = Ok (rs, ip, tp) ->
+  (j < face_lines rest (Z.to_nat (e_count fe)))%nat ->
+  (0 < m)%nat -> (m < face_used rs (nth j rest []))%nat ->
+  read_mesh {| pf_header := hdr;
+               pf_body := BodyAscii (firstn (length lines - length rest) lines
+                                     ++ firstn j rest ++ [firstn m (nth j rest [])]) |} = Err EDeclared.
+Proof. exact ply_ascii_face_line_cut. Qed.
+Print Assumptions prefix_ply_ascii_face_token.
 
 (* ---------------------------------------------------------------- PTS (token level) *)
 (* a valid file: n lines of w >= 3 fields.  Every token-boundary strict prefix (j complete lines, m tokens of the
